@@ -47,7 +47,7 @@ def check_one(case, res):
         res["evals"] += 1
         c1 = dict(case, horizons=[n_sim])
         try:
-            hl = hybrid.make_hybrid(handed, n_sim, start_month=sm0) if case.get("as_array") else hybrid.make_hybrid(loads, n_sim, start_month=sm0)
+            hl = hybrid.make_hybrid(handed, n_sim, start_month=sm0, raw=True) if case.get("as_array") else hybrid.make_hybrid(loads, n_sim, start_month=sm0)
         except Exception as e:  # noqa: BLE001
             res["violations"].append(core.viol("hybrid_load_raised", c1, msg=f"HybridLoad raised {type(e).__name__}: {e}", exc=type(e).__name__))
             continue
